@@ -232,7 +232,7 @@ def history_check(ctx, prop):
     for h in dag_rule_histories(rng, sizes(tier, 120, 2500)):
         hs.append(h)
         mls.append(model_lines_for(h))
-    for h in twin_histories(rng, sizes(tier, 60, 800)):
+    for h in twin_histories(rng, sizes(tier, 60, 800)) + wide_histories(rng, sizes(tier, 30, 400)):
         hs.append(h)
         mls.append(model_lines_for(h))
     res = run_histories(hs)
@@ -351,6 +351,25 @@ def twin_histories(rng, n):
     return out
 
 
+def wide_histories(rng, n):
+    """a sum or product with MANY operands (9-13, some of them quotients, differences, powers), used on its own and
+    inside a non-linear parent that is differentiated symbolically and simplified in between: a simplifier that edits
+    wide nodes in place, or gives up on them differently, changes what the wide node itself answers"""
+    out = []
+    for _ in range(n):
+        w = gen.wide_node(rng, [2, 3], arity=rng.choice([9, 10, 11, 13]), kind='mixed')
+        f = rng.choice(['(Sin (REF 0))', '(Mul (V 2) (REF 0))', '(NthPow (REF 0) 2)', '(Exp (REF 0) f4005bf0a8b145769)',
+                        '(Divide (REF 0) (Add (V 3) (C i5)))'])
+        v = rng.choice([2, 3])
+        pts = [sx.point_sx([(2, rng.choice([1.5, 2, 0.75, 3])), (3, rng.choice([2.5, 1.25, 4, 0.5]))]),
+               sx.point_sx([(2, gen.rnum(rng)), (3, gen.rnum(rng))])]
+        ops = [['at', 0, 0], ['mkpartial', 0, 1, v, 1], ['at', 0, 0], ['pexpr', 0], ['at', 0, 1], ['at', 1, 0], ['norm', 1],
+               ['at', 0, 0], ['located', 0, 1], ['mkpartial', 1, 0, v, 0], ['pat', 1, 0], ['pexpr', 1], ['at', 0, 1],
+               ['mkdiff', 2, 1, 1], ['dfat', 2, 0], ['at', 0, 0], ['norm', 0], ['at', 0, 1]]
+        out.append({'pool': [sx.to_sx(w), f], 'points': pts, 'ops': ops})
+    return out
+
+
 def twin_children_histories(rng, n):
     """an n-ary node whose operands include the same composite term written out twice (equal, distinct objects,
     two or more levels above the variables), asked the same question at a first point, at a second, and at the first
@@ -450,7 +469,7 @@ def history_correspondence(ctx, rep, n, keep, maxlen=10, what='history', extra=N
     for h in (extra or []):
         hs.append(h)
         mls.append(model_lines_for(h))
-    for h in twin_children_histories(rng, max(6, n // 12)):
+    for h in twin_children_histories(rng, max(6, n // 12)) + wide_histories(rng, max(4, n // 20)):
         ml = model_lines_for(h)
         ops, m2 = [], []
         for op, l in zip(h['ops'], ml):
@@ -839,6 +858,7 @@ def check_C12(ctx):
             rep.oracle_fail('point equality/hash law broken: %s' % b.impl[x], b, [x])
     rep.stats.update({'pair_' + k: v for k, v in eqs.items()})
     used_roundtrip(rep, [e for e, _f, _g, _w, _i, _j, _x in recs[:sizes(tier, 200, 3000)]], rng)
+    wide_equalities(rep, sizes(tier, [9, 17, 100, 257, 300], [9, 10, 16, 17, 33, 100, 255, 256, 257, 258, 300, 1000]))
     # derivative objects reached by different routes: Differential(e).component(v) against Partial(e, v),
     # Differential(e).at(p) against LocatedDifferential(e, p), early and late, ==, != and hash
     import props
@@ -849,6 +869,17 @@ def check_C12(ctx):
             cases_.append((e, gen.positive_point(rng, ids) if rng.random() < 0.7 else gen.rpoint(rng, ids), rng.choice(ids)))
     props.object_equalities(rep, cases_)
     return rep
+
+
+def wide_equalities(rep, arities):
+    """==, hash, repr of n-ary nodes with many operands, also beyond 256 (where two equal ints stop being one object)"""
+    b = Batch()
+    idx = [b.add('WIDEEQ %d' % k) for k in arities]
+    b.run(model=False)
+    for i in idx:
+        rep.stats['wide_equality_' + b.impl[i].split(':')[0].split(' ')[0]] += 1
+        if b.impl[i] != 'ok':
+            rep.oracle_fail('n-ary nodes with many operands: %s' % b.impl[i], b, [i])
 
 
 def used_roundtrip(rep, exprs, rng):
@@ -944,6 +975,7 @@ def check_C13(ctx):
     if b.impl[nums] != 'ok':
         rep.oracle_fail('repr of a finite number does not read back equal: %s' % b.impl[nums], b, [nums])
     used_roundtrip(rep, [e for e, _idx in recs[:sizes(tier, 150, 3000)]], rng)
+    wide_equalities(rep, sizes(tier, [9, 12, 17, 23, 40], [9, 10, 11, 12, 15, 16, 17, 23, 24, 25, 33, 40, 100, 257]))
     b4 = Batch()
     nrt = b4.add('NAMERT')
     b4.run(model=False)
@@ -1044,6 +1076,9 @@ def arg_stream(rng, n):
             2.0000000001, 1.9999999999, 0.3 / 0.1, 1.0000000000000002, 0.9999999999999999, 2000000000.5, 1e10 + 0.75,
             123456789.25, 4.000000001, 5 - 1e-12, 1e-12, 1 + 1e-9, 33.00000000001]
     out += [sx.num_sx(x) for x in near]
+    # integers and integral floats beyond 2^52 / 2^53 / 2^63 (a detour through float loses their low bits and their parity)
+    out += ['i%d' % z for z in (2 ** 52 + 1, 2 ** 53 + 1, 2 ** 53 + 3, 10 ** 23, 2 ** 63 + 1, 2 ** 64 + 5, 3 ** 40)]
+    out += [sx.num_sx(x) for x in (4503599627370499.0, 9007199254740994.0, 1e23, 2.0 ** 63, 6.3e18)]
     for _ in range(n):
         r = rng.random()
         if r < 0.12:
@@ -1104,6 +1139,12 @@ def check_C15(ctx):
             rep.oracle_fail('operator result differs from the named constructor: %s' % b.impl[i], b, [i])
     import props
     props.augmented_assignments(rep, rng, sizes(tier, 60, 600))
+    bo = Batch()
+    oc = [bo.add('OPCHAIN %d' % k) for k in sizes(tier, [12, 160], [12, 101, 160, 400])]
+    bo.run(model=False)
+    for i in oc:
+        if bo.impl[i] != 'ok':
+            rep.oracle_fail('long operator chains: %s' % bo.impl[i], bo, [i])
     return rep
 
 
